@@ -3826,7 +3826,8 @@ def splitValue(value, delim):
     else:
         parts = re.split(delim, value)
         for part in parts:
-            result.addItem(ValueString(part))
+            if part is not None:    # a group that did not take part
+                result.addItem(ValueString(part))
     return result
 
 
